@@ -48,6 +48,6 @@ pub fn check() -> Check {
         "Resources cannot vanish or be duplicated inside a transaction",
         "1-3 generated manifests per case on the standard world (reset per case): withdraw / take (amount, ids, all, exact-balance) / return / assert (amount, ids, any) / burn / mint / recall / proofs / deposits / ENTIRE_WORKTOP, with deliberately faulty operands (too much, off-grid, stale bucket or proof ids, unknown ids) and deliberately unfinished manifests. Oracle: worktop / bucket / proof / vault model predicting success or the failure class, and the committed content of every account vault. Non-trivial = a manifest of >= 6 instructions in which an exact-balance take (the worktop's bucket is moved out) is followed by another worktop operation.",
     )
-    .part(Part::new("worktop", 4000, 200_000, 600, |g| model_case(g, &Profile::worktop(), "C09", 3, nontrivial)))
+    .part(Part::new("worktop", 6000, 300_000, 600, |g| model_case(g, &Profile::worktop(), "C09", 3, nontrivial)))
     .min_nontrivial_pct(10.0)
 }
